@@ -1,6 +1,7 @@
 package props
 
 import (
+	"fmt"
 	"os"
 	"time"
 	"testing"
@@ -91,4 +92,62 @@ func TestC02(t *testing.T) {
 func TestC14(t *testing.T) {
 	core.Extra("race_detector_enabled", RaceEnabled)
 	core.Run(t, P14)
+}
+
+func TestC20(t *testing.T) {
+	tierOverride = os.Getenv("VERIF_TIER_NAME")
+	core.Run(t, P20)
+}
+
+// TestC20Fixed measures the fixed families (shard 0 only).
+func TestC20Fixed(t *testing.T) {
+	if os.Getenv("VERIF_SHARD") != "" && os.Getenv("VERIF_SHARD") != "0" {
+		t.Skip("enumerations run in shard 0")
+	}
+	stmts := loadStatementCounts()
+	var reports []Report20
+	for _, f := range FixedFamilies20 {
+		rep, _ := Analyse20(f)
+		if s, ok := stmts[f.Name]; ok && len(s) == len(rep.Sizes) && !rep.Trivial {
+			rep.Stmts = s
+			for i := 1; i < len(s); i++ {
+				rep.ExpStmts = append(rep.ExpStmts, exponent(float64(s[i-1]), float64(s[i]), float64(rep.Sizes[i])/float64(rep.Sizes[i-1])))
+			}
+		}
+		msg := verdict20(rep)
+		r := &core.Rec{}
+		r.Class("op:" + f.Op)
+		if rep.Trivial {
+			r.Class("trivial")
+		} else {
+			r.NT()
+		}
+		if msg != "" {
+			r.Failf("%s", msg)
+		}
+		reports = append(reports, rep)
+		if core.Account("C20", f, r) {
+			core.Extra("fixed_families", summarise20(reports))
+			t.Fatalf("VIOLATION C20: %s", msg)
+		}
+	}
+	core.Extra("fixed_families", summarise20(reports))
+	core.Extra("statement_counter_families", len(stmts))
+}
+
+// TestC20Survey prints every super-linear fixed family (development aid; VERIF_C20_SURVEY=1).
+func TestC20Survey(t *testing.T) {
+	if os.Getenv("VERIF_C20_SURVEY") == "" {
+		t.Skip()
+	}
+	for _, f := range FixedFamilies20 {
+		rep, msg := Analyse20(f)
+		if msg != "" {
+			fmt.Printf("SUPERLINEAR %s: %s\n", f.Name, msg)
+		} else if !rep.Trivial {
+			fmt.Printf("ok %s bytes %s mallocs %s\n", f.Name, fmtExps(rep.ExpBytes), fmtExps(rep.ExpMall))
+		} else {
+			fmt.Printf("trivial %s\n", f.Name)
+		}
+	}
 }
